@@ -156,6 +156,35 @@ int main(int argc, char ** argv) {
             if (repr == "dense") direct(dense, t, hB, hF, hQ, hP, nPers, minRew, bs, true, o);
             else if (repr == "generic") { GenericPOMDP gm{dense}; direct(gm, t, hB, hF, hQ, hP, nPers, minRew, bs, true, o); }
             else { POMDP::SparseModel<MDP::SparseModel> sp(dense); direct(sp, t, hB, hF, hQ, hP, nPers, minRew, bs, false, o); }
+        } else if (kind == "reuse") {    // reuse hB hF hQ hP nPers atol np <pomdp>*np <b0> <nb> <beliefs>
+            // ONE solver object per algorithm, several problems of the same size in a row: every call's
+            // bounds must be sound for ITS problem (no state may leak from one solve into the next)
+            unsigned hB = c.nextSize(), hF = c.nextSize(), hQ = c.nextSize(), hP = c.nextSize(), nPers = c.nextSize();
+            double atol = c.nextDouble(); size_t np = c.nextSize();
+            std::vector<Tables> ts; for (size_t k = 0; k < np; ++k) ts.push_back(readPomdp(c));
+            const size_t S = ts[0].S;
+            POMDP::Belief b0(S); for (size_t s = 0; s < S; ++s) b0[s] = c.nextDouble();
+            auto bs = readBeliefs(c, S);
+            std::vector<POMDP::Model<MDP::Model>> models;
+            for (const auto & t : ts) models.emplace_back(t.O, t.Ob, t.S, t.A, t.T, t.R, t.g);
+            POMDP::BlindStrategies blT(hB, 0.0), blF(hB, 0.0); POMDP::FastInformedBound fib(hF, 0.0); POMDP::QMDP qm(hQ, 0.0);
+            POMDP::PBVI pbvi(0, hP, 0.0); POMDP::PERSEUS pers(nPers, hP, 0.0);
+            for (size_t k = 0; k < np; ++k) {
+                const auto & model = models[k];
+                const double minRew = model.getRewardFunction().minCoeff();
+                { auto [var, vl] = blT(model, true);  o << "blindT" << var; dumpVList(o, vl); }
+                { auto [var, vl] = blF(model, false); o << "blindF" << var; dumpVList(o, vl); }
+                { auto [var, q] = fib(model); o << "fib" << var; dumpMat(o, q); }
+                { auto [var, vf, q] = qm(model); o << "qmdp" << var; dumpMat(o, q); dumpVList(o, vf.back()); }
+                { auto [var, vf] = pbvi(model, bs); o << "pbvi" << var << vf.size(); for (const auto & l : vf) dumpVListFull(o, l); }
+                { auto [var, vf] = pers(model, minRew); o << "perseus" << var << vf.size(); for (const auto & l : vf) dumpVListFull(o, l); }
+            }
+            bool ok = runGuarded(10.0, o, [&](vio::Out & co) {
+                POMDP::SARSOP sar(atol, 0.125); POMDP::GapMin gm(atol, 2);
+                for (size_t k = 0; k < np; ++k) { auto [lb, ub, vl, q] = sar(models[k], b0); co << "sarsop" << lb << ub; dumpVList(co, vl); dumpMat(co, q); }
+                for (size_t k = 0; k < np; ++k) { auto [lb, ub, vl, q] = gm(models[k], b0); co << "gapmin" << lb << ub; dumpVList(co, vl); dumpMat(co, q); }
+            });
+            if (!ok) o << "NOCONV";
         } else if (kind == "perseus_d1") {   // perseus_d1 <pomdp with discount 1>: PERSEUS must reject it
             Tables t = readPomdp(c);
             POMDP::Model<MDP::Model> dense(t.O, t.Ob, t.S, t.A, t.T, t.R, t.g);
